@@ -299,9 +299,10 @@ def load_known_findings():
     return res
 
 
-def prepare(workdir, canary=False, skip_body=(), force_external=()):
+def prepare(workdir, canary=False, skip_body=(), force_external=(), drop_statics=()):
     os.makedirs(workdir, exist_ok=True)
-    image, maps = gen.build_image(os.path.join(REPO, 'src'), canary=canary, skip_body=skip_body, force_external=force_external)
+    image, maps = gen.build_image(os.path.join(REPO, 'src'), canary=canary, skip_body=skip_body, force_external=force_external,
+                                  drop_statics=drop_statics)
     name = 'canary' if canary else 'proof'
     d = os.path.join(workdir, name)
     os.makedirs(d, exist_ok=True)
@@ -387,7 +388,8 @@ def decide(props, a, seed, workdir, t0):
     # function are then only reported with a concrete witness.
     skip_body = set()
     force_external = set()
-    for _round in range(5):
+    drop_statics = set()
+    for _round in range(6):
         fe = [f for f in fails if f['kind'] == 'frontend']
         if not fe or (vr['json'] and vr['json'].get('verification-results', {}).get('verified')):
             break
@@ -396,6 +398,18 @@ def decide(props, a, seed, workdir, t0):
             # a front-end error located inside the body of a function that carries spliced body annotations
             # (ghost code, invariants, closure contracts): drop those annotations (the contract stays)
             for ln in f['lines']:
+                if ln - 1 < len(image_lines):
+                    # a rejected `static` item (possibly spanning several lines): dropped (R9)
+                    for back in range(0, 12):
+                        if ln - 1 - back < 0:
+                            break
+                        ms = re.match(r'\s*(?:pub(?:\([a-z]+\))?\s+)?static\s+(?:mut\s+)?(\w+)', image_lines[ln - 1 - back])
+                        if ms:
+                            if ms.group(1) not in drop_statics and ms.group(1) not in STATIC_ALLOWED:
+                                new_skip.add('$' + ms.group(1))
+                            break
+                        if back and re.search(r'[;{}]\s*$', image_lines[ln - 1 - back]):
+                            break
                 k = lookup(ln)
                 rng = [r for r in maps['fn_ranges'] if r[0] <= ln <= r[1]]
                 if not k or not rng or ln <= min(r[3] for r in rng):
@@ -414,9 +428,11 @@ def decide(props, a, seed, workdir, t0):
         for k in new_skip:
             if k.startswith('!'):
                 force_external.add(k[1:])
+            elif k.startswith('$'):
+                drop_statics.add(k[1:])
             else:
                 skip_body.add(k)
-        ppath, image, maps = prepare(workdir, canary=False, skip_body=skip_body, force_external=force_external)
+        ppath, image, maps = prepare(workdir, canary=False, skip_body=skip_body, force_external=force_external, drop_statics=drop_statics)
         lookup = build_fnkey_lookup(image, maps)
         image_lines = image.split('\n')
         vr = run_verus(ppath, os.path.dirname(ppath), None, 8)
@@ -429,11 +445,11 @@ def decide(props, a, seed, workdir, t0):
         if not lis:
             fails.append({'kind': 'verification', 'message': 'function body is outside what the Verus front end accepts', 'labels': [], 'fn': k,
                           'lines': [], 'rendered': 'unverified (forced external_body): %s' % k, 'unverified': True})
-    if (skip_body or force_external) and cr is not None:
+    if (skip_body or force_external or drop_statics) and cr is not None:
         # the canary image must be degraded the same way as the proof image; the canary guards the vacuity of the
         # CONTRACTS (which do not depend on the tree), so if it still cannot be built it is skipped for this run
         try:
-            cpath, cimage, cmaps = prepare(workdir, canary=True, skip_body=skip_body, force_external=force_external)
+            cpath, cimage, cmaps = prepare(workdir, canary=True, skip_body=skip_body, force_external=force_external, drop_statics=drop_statics)
             clookup = build_fnkey_lookup(cimage, cmaps)
             cr = run_verus(cpath, os.path.dirname(cpath), None, 8)
         except (gen.LostAnchor, rustscan.ScanError):
